@@ -28,7 +28,7 @@ USERINFO = ["", "user@", "user:pw@", ":pw@", "us.er:p:w@", "%40u:p%3A@", "@", ":
 HOSTS = ["a.com", "www.a.co.uk", "A.Com", "b.a.compute.amazonaws.com", "foo.ck", "www.ck", "x.city.kawasaki.jp", "1.2.3.4", "[::1]", "[2001:db8::1]",
          "[fe80::a:b]", "[1:2:3:4:5:6:7:8]", "[::ffff:1.2.3.4]", "localhost", "com", "co.uk", "xn--tlrama-bvab.fr", "télérama.fr", "unknown.zzzz", "a.b.c.d.e.f",
          "svc.firenet.ch", "a-b.example.org", "127.0.0.1", "WWW.Example.ORG", "cafe.be", "[2001:DB8::A]",
-         "httpbin.org", "https.example.org", "localhost.example.com", "10.0.0.1.nip.io", "my_shop.example.com", "bücher.xn--p1ai", "github.io", "dead.beef.cafe.be"]
+         "straße.de", "x.ſ.co.uk", "ΟΔΌΣ.gr", "httpbin.org", "https.example.org", "localhost.example.com", "10.0.0.1.nip.io", "my_shop.example.com", "bücher.xn--p1ai", "github.io", "dead.beef.cafe.be"]
 PORTS = ["", ":8080", ":80", ":", ":0080", ":65535"]
 PATHS = ["", "/", "/a", "/a/", "/a//b", "//", "/a/b/c", "/a:b@c", "/a b", "/é/%C3%A9", "/a/./../b", "///", "/r/http://x.y/z"]
 QUERIES = ["", "?", "?a=1", "?a=1&b", "?x:y@z", "?a=?b/c", "?é=%20", "?to=http://o.org/p"]
